@@ -9,7 +9,8 @@ from vlib.harness import Sub, Violation, call
 PROPERTY = "C09"
 RULE = ("Programs from the full generator (components, loss, barriers, unitary blocks, plain and heralded groups, "
         "nested additions, Parameters in any numeric slot) and a swap-heavy generator (half the operations are "
-        "mode swaps with blockers of every kind between them); a generated sequence of 1-4 rewrites from "
+        "mode swaps - exchanges, random permutations, products of two disjoint cycles - with blockers of every kind "
+        "between them); a generated sequence of 1-4 rewrites from "
         "{unpack_groups, compress_mode_swaps, remove_non_adjacent_bs, copy, copy(freeze_parameters=True)} is "
         "applied to the circuit while an untouched copy is kept. After every rewrite: U_full (1e-9), heralds, "
         "input size, mode count equal those before; post-conditions (no group / no non-adjacent beam splitter at "
